@@ -252,6 +252,15 @@ class MergeSem(Sem):
             env = tuple(sorted(envd.items()))
         elif isinstance(st, ast.Expr):
             self._order(st.value, state)
+            envd = dict(env)
+            for c in calls_in(st):
+                # a local list of row blocks grown in place: blocks.append(x) / blocks.extend(xs) put the new rows AFTER what it holds
+                if isinstance(c.func, ast.Attribute) and isinstance(c.func.value, ast.Name) and c.func.attr in ("append", "extend", "insert") and c.func.value.id in envd:
+                    add = frozenset().union(*[self.srcs(a, state) for a in c.args]) if c.args else frozenset()
+                    if c.func.attr == "insert" and "buf" in add and "old" in envd[c.func.value.id]:
+                        self.order_faults.append(c)
+                    envd[c.func.value.id] = envd[c.func.value.id] | add
+            env = tuple(sorted(envd.items()))
             for c in calls_in(st):
                 if isinstance(c.func, ast.Attribute) and dotted(c.func.value) == f"self.{self.buf}" and c.func.attr in ("clear",):
                     b = "cleared"
